@@ -153,6 +153,60 @@ def js_preds(fn):
     return fixed, {c for c in consts if c not in STRUCTURAL_CONSTS}
 
 
+# truthiness tests (`if x`, `not x`, `x ? a : b`, operands of and/or inside a test): multiset per tested name
+ALLOW_TRUTHY = {
+    ('round_up_str_num', 'js', 't'): "while (t.length && t.startsWith('0')) emulates t.lstrip('0')",
+    ('normalize_event_code', 'py', 's'): 'Python skips a group that is blank after strip(); a listed group always holds a digit or letter '
+                                         '(group languages are compared by R2)',
+    ('TyrvingCalculator.points', 'js', 'timingKind'): "default argument idiom: timingKind ? timingKind : 'automatic'",
+    ('tyrving_score', 'py', 'params'): '`if not params` after .get(); JavaScript tests == null (null tests are idiom)',
+    ('qkids_score', 'js', 'v'): 'v = event.match(PAT_RUN); v ? ... : ... is `if PAT_RUN.match(event)` in Python (call tests are not names)',
+}
+
+
+def py_truthy(fn):
+    import collections
+    c = collections.Counter()
+
+    def tests(e):
+        if isinstance(e, ast.BoolOp):
+            for v in e.values:
+                tests(v)
+        elif isinstance(e, ast.UnaryOp) and isinstance(e.op, ast.Not):
+            tests(e.operand)
+        elif isinstance(e, (ast.Name, ast.Attribute, ast.Subscript)):
+            nm = jsast.py_name(e)
+            if nm:
+                c[jsast.camel(nm)] += 1
+    for n in ast.walk(fn):
+        if isinstance(n, (ast.If, ast.While, ast.IfExp)):
+            tests(n.test)
+    return c
+
+
+def js_truthy(fn):
+    import collections
+    c = collections.Counter()
+
+    def tests(e):
+        t = e['type']
+        if t == 'LogicalExpression':
+            tests(e['left'])
+            tests(e['right'])
+        elif t == 'UnaryExpression' and e['operator'] == '!':
+            tests(e['argument'])
+        elif t in ('Identifier', 'MemberExpression'):
+            nm = jsast.js_name(e)
+            if nm:
+                if nm.endswith('.length'):
+                    nm = nm[:-len('.length')]      # emptiness test of a string / array
+                c[nm] += 1
+    for n in jsast.jwalk(fn):
+        if n['type'] in ('IfStatement', 'WhileStatement', 'ConditionalExpression') and n.get('test'):
+            tests(n['test'])
+    return c
+
+
 def js_regex_to_py(src):
     return re.sub(r'\(\?<([A-Za-z_]\w*)>', r'(?P<\1>', src)
 
@@ -345,6 +399,25 @@ def run(ctx, repo):
             ctx.finding('R3', '%s::%s::string constants %s' % (JS[mod], jq, sres), JS[mod], jsast.line(jfun[mod][jq]),
                         'the short string constants of %s and its port %s differ: %s (a character set, separator or unit letter was changed '
                         'on one side only)' % (pq, jq, ', '.join('%s only in %s' % (repr(x), 'Python' if s_ == 'py' else 'JavaScript') for s_, x in sres)), sres)
+        # truthiness tests per name (multiset): a defensive `if not x` added or dropped on one side only
+        pt, jt = py_truthy(pf), js_truthy(jfun[mod][jq])
+        tp, tj = pt - jt, jt - pt
+        for nm in sorted(tp):
+            if nm not in jnames:
+                cand = [m_ for m_ in sorted(tj) if m_ not in pnames and tj[m_] == tp[nm]]
+                if cand:
+                    del tj[cand[0]]
+                    tp[nm] = 0
+        tres = [('py', nm, k) for nm, k in sorted(tp.items()) if k > 0 and (pq, 'py', nm) not in ALLOW_TRUTHY] + \
+               [('js', nm, k) for nm, k in sorted(tj.items()) if k > 0 and (pq, 'js', nm) not in ALLOW_TRUTHY]
+        for side, nm, k in tres:
+            ctx.finding('R3', '%s::%s::emptiness test of %s only in %s' % (JS[mod], jq, nm, 'Python' if side == 'py' else 'JavaScript'),
+                        JS[mod], jsast.line(jfun[mod][jq]),
+                        '%s tests `%s` for emptiness / truth %d time(s) more than %s: a defensive branch exists on one side only, so inputs '
+                        'that reach it are answered differently' % ('Python ' + pq if side == 'py' else 'JavaScript ' + jq, nm, k,
+                                                                    'its port ' + jq if side == 'py' else 'the original ' + pq), nm)
+        if tres:
+            res_py = res_py or ['truthiness']
         if not res_py and not res_js and pc == jc and not sres:
             ctx.ok('R3', '%s <-> %s: %d predicates, constants %s agree' % (pq, jq, len(pp | jp), sorted(pc)))
     ctx.floor('ported pairs compared', n_pairs, 18)
